@@ -8,6 +8,8 @@ CONSTANTS
   ServeFails = TRUE
   DeferUnreport = TRUE
   LockedAdd = TRUE
-INVARIANTS NoPanic OutcomeOK CountersNonNeg CountersBalanced LockNotLeaked NoWedge
+  Counting = TRUE
+  TrackKey = "pair"
+INVARIANTS ServedShown TrackedWhileServing TrackerEmptied NoPanic OutcomeOK CountersNonNeg CountersBalanced LockNotLeaked NoWedge
 PROPERTIES EveryOpenEnds LaterStreamsServed
 CHECK_DEADLOCK FALSE
